@@ -1745,7 +1745,7 @@ class Interp:
             v = pre[n]
             if is_term(v) or isinstance(v, (bool, str)) or v is None:
                 # scalars of any kind that the body reassigns are loop-carried state
-                s = sp.Symbol(f"~c:{n}@{st.lineno}")
+                s = sp.Symbol(f"~c:{n}@{st.lineno}" + (f".{st._osuverif_depth}" if getattr(st, "_osuverif_depth", 0) else ""))
                 carried_syms[n] = s
                 benv.vars[n] = s
                 pre[n] = to_term(v)
@@ -1936,6 +1936,36 @@ class Interp:
         inc = self.as_increment(fin, s)
         if inc is not None:
             return orig + op("loopsum_brk" if has_break else "loopsum", inc, lv, itt)
+        # several slots of a small accumulator updated in one pass: a[0] += e0; a[1] += e1  (each slot its own sum)
+        chain = []
+        cur_ = fin
+        while fname(cur_) == "store" and len(cur_.args) == 3:
+            chain.append((cur_.args[1], cur_.args[2]))
+            cur_ = cur_.args[0]
+        if cur_ == s and len(chain) >= 2 and all(getattr(i_, "is_Integer", False) for i_, _ in chain) \
+                and len({i_ for i_, _ in chain}) == len(chain):
+            out_ = orig
+            ok_ = True
+
+            def through(n):
+                # a read of slot j from the accumulator after other (numbered) slots were written is a read of the old slot j
+                if fname(n) == "item" and getattr(n.args[1], "is_Integer", False):
+                    b_ = n.args[0]
+                    while fname(b_) == "store" and len(b_.args) == 3 and getattr(b_.args[1], "is_Integer", False) and b_.args[1] != n.args[1]:
+                        b_ = b_.args[0]
+                    if b_ is not n.args[0]:
+                        return op("item", b_, n.args[1])
+                return None
+            chain = [(i_, T.rewrite(v_, through)) for i_, v_ in chain]
+            for i_, v_ in reversed(chain):
+                e_ = sp.expand(v_ - op("item", s, i_))
+                if s in e_.free_symbols:
+                    ok_ = False
+                    break
+                acc_ = self.lib.term_getitem(self, out_, i_, None, None) + op("loopsum_brk" if has_break else "loopsum", v_ - op("item", s, i_), lv, itt)
+                out_ = self.lib.term_setitem(self, out_, i_, acc_, None, None)
+            if ok_:
+                return out_
         st_ = self.as_store(fin, s)
         if st_ is not None:
             idx, val = st_
